@@ -398,6 +398,14 @@ def check_operators(tid, desc, lib, rk_cfg, acc, tier):
                                       '%s %s %s/%s: %s tree=%s' % (ver, lib, what, frag, src, G.to_xml(desc)),
                                       {'expected': [list(map(str, r)) for r in want[1]], 'observed': repr(got)[:300]},
                                       dict(case_base, kind='fn', ver=ver, src=src))
+        # a sequence selected by a relative path is deep-equal to itself: the two operands are consumed in lockstep and each has its own focus
+        for rel in ('*', '*[1]', 'a', 'b[1]', '*[last()]', 'node()', 'text()', 'a/*', '*/b[1]', '@*', 'a | b', '.', '..', 'a[1]/following-sibling::*'):
+            for src, want_v in (('deep-equal(%s, %s)' % (rel, rel), True), ('deep-equal((%s, 1), (%s, 1))' % (rel, rel), True), ('count(%s) = count((%s)[deep-equal(., .)])' % (rel, rel), True)):
+                g_ = run(ver, src)
+                acc.cmp()
+                if g_ != ('ok', want_v):
+                    acc.violation('C02|deep-equal-of-a-selection-with-itself|%s' % ('false' if g_[0] == 'ok' else g_[0]), '%s %s %s/%s: %s tree=%s' % (ver, lib, what, frag, src, G.to_xml(desc)),
+                                  {'expected': want_v, 'observed': repr(g_)[:120]}, dict(case_base, kind='fn', ver=ver, src=src))
         # fn:root() of every node
         top = model.root if rk != 'hidden' else model.root
         for a in mnodes:
